@@ -52,9 +52,12 @@ RSub(p, q) == RAdd(p, RNeg(q))
 \* comparison: -1, 0, 1 or 2 (unknown)
 RCmp(p, q) ==
   IF IsBot(p) \/ IsBot(q) THEN 2
-  ELSE IF MulOK(p[1], q[2]) /\ MulOK(q[1], p[2])
-       THEN LET x == p[1] * q[2]  y == q[1] * p[2] IN IF x < y THEN -1 ELSE IF x = y THEN 0 ELSE 1
-       ELSE 2
+  ELSE LET g  == GCD(p[2], q[2])
+           qd == q[2] \div g
+           pd == p[2] \div g
+       IN IF MulOK(p[1], qd) /\ MulOK(q[1], pd)
+          THEN LET x == p[1] * qd  y == q[1] * pd IN IF x < y THEN -1 ELSE IF x = y THEN 0 ELSE 1
+          ELSE 2
 RLt(p, q) == RCmp(p, q) = -1
 RLe(p, q) == RCmp(p, q) \in {-1, 0}
 
